@@ -25,17 +25,20 @@ RULE = (
     " Distinct = descriptor hash."
 )
 ASSUMPTIONS = [
+    "five-body topologies are evaluated with cse only (without it the generated numpy source of one deep chain has ~10^8"
+    " characters; compiling it needs several GB per process); 2-4 bodies with and without cse",
     "reference: numpy boosts/rotations following the documented chain Bz(|p|/E) Ry(-theta) Rz(-phi) (vp/ref/frames.py)",
     "the momentum an angle pair denotes: both children final -> the named (helicity) child; exactly one child decays ->"
     " that child (doctest theta_0 = Theta(p1+p2)); both decay -> the named child (get_boost_chain_suffix docs)",
-    "directions are compared as unit vectors with tolerance 1e-9*cond + 3e-8*sqrt(cond) + 64 eps*cond2, cond = product of"
+    "directions are compared as unit vectors with tolerance 1e-9*cond + 3e-8*sqrt(cond) + 1024 eps*cond2, cond = product of"
     " the boost gammas times E/|p| of the designated momentum, cond2 the same with the gammas squared (rounding of"
-    " 1/sqrt(1-beta^2), dominant for events in a lab frame; there additionally 32x the measured change of the reference direction"
-    " under 4-ulp perturbations of the input momenta); invariant masses via m^2 with tolerance 1e-12*E_total^2",
+    " 1/sqrt(1-beta^2), dominant for events in a lab frame; there additionally 256x the measured change of the reference direction"
+    " under 4-ulp perturbations of the input momenta and 64x (+16x the batch maximum of) the difference between the"
+    " reference in double and in extended precision); invariant masses via m^2 with tolerance 1e-12*E_total^2",
 ]
 BUDGET = {
     "quick": {"examples": 320, "shards": 16, "cap_s": 150, "shrink_calls": 40, "shrink_s": 90, "case_timeout_s": 60},
-    "thorough": {"examples": 6000, "shards": 16, "cap_s": 2400, "shrink_calls": 150, "shrink_s": 300, "case_timeout_s": 240},
+    "thorough": {"examples": 6000, "shards": 16, "cap_s": 2400, "shrink_calls": 150, "shrink_s": 300, "case_timeout_s": 90},
 }
 MASSES = [0.0, 0.0005, 0.135, 0.494, 0.938]
 
@@ -55,7 +58,7 @@ def strategy(tier):
     def for_n(n):
         return st.fixed_dictionaries({
             "n": st.just(n),
-            "topos": st.lists(_topo(n), min_size=1, max_size=3),
+            "topos": st.lists(_topo(n), min_size=1, max_size=3 if n <= 4 else 2),  # 3 five-body topologies: minutes, GBs
             "permutate": st.sampled_from([False, False, True]) if n <= 4 else st.just(False),
             "masses": st.lists(st.sampled_from(MASSES), min_size=n, max_size=n),
             "total": st.sampled_from([1.001, 1.05, 1.5, 3.0, 30.0, 1000.0]),
@@ -67,7 +70,8 @@ def strategy(tier):
                 "bg": st.sampled_from([-1.0, 0.0, 0.5, 1.0, 2.0, 3.0, 4.0, 4.5]),
                 "dir": st.sampled_from(["random", "random", "random", "+z", "-z", "+x"]),
             })),
-            "cse": st.booleans(),
+            # five-body chains without cse: the generated source has 10^8 characters and compiling it takes GBs
+            "cse": st.booleans() if n <= 4 else st.just(True),
             "seed": st.integers(0, 2**31 - 1),
         })
 
@@ -193,6 +197,23 @@ def run_case(desc) -> Result:  # noqa: C901, PLR0912, PLR0914, PLR0915
                             d = np.linalg.norm(frames.unit_vector(values_p[nm], values_p[th]) - frames.unit_vector(values[nm], values[th]), axis=1)
                         d = np.where(np.isfinite(d), d, np.inf)
                         slack[nm] = np.maximum(slack.get(nm, 0.0), d)
+        # ... and by repeating the reference in extended precision: |double - long double| is the rounding noise of a
+        # straightforward double-precision evaluation (the library's is one, too); the batch maximum is used
+        # as well because all 16 events of a case share masses and boost
+        extended = {k: p.astype(np.longdouble) for k, p in momenta.items()}
+        for (values, _m), topo in zip(refs, registered):
+            values_x, _ = frames.reference_kinematics(topo, extended)
+            for nm in values:
+                if nm.startswith("phi"):
+                    th = "theta" + nm[3:]
+                    with np.errstate(all="ignore"):
+                        d = np.linalg.norm(
+                            frames.unit_vector(values_x[nm].astype(float), values_x[th].astype(float))
+                            - frames.unit_vector(values[nm], values[th]), axis=1)
+                    d = np.where(np.isfinite(d), d, np.inf)
+                    finite = d[np.isfinite(d)]
+                    d = 64 * d + 16 * (float(finite.max()) if finite.size else 0.0)
+                    slack[nm] = np.maximum(slack.get(nm, 0.0), d / 256)
     names = set()
     for values, _ in refs:
         names |= set(values)
@@ -221,9 +242,9 @@ def run_case(desc) -> Result:  # noqa: C901, PLR0912, PLR0914, PLR0915
         base_vec, base_meta, _ = candidates[0]
         kinds.add(base_meta["kind"])
         cond = np.nan_to_num(base_meta["cond"], nan=1e30, posinf=1e30)
-        tol = 1e-9 * cond + 3e-8 * np.sqrt(cond) + 64 * 2.2e-16 * np.nan_to_num(base_meta["cond2"], nan=1e30, posinf=1e30)
+        tol = 1e-9 * cond + 3e-8 * np.sqrt(cond) + 1024 * 2.2e-16 * np.nan_to_num(base_meta["cond2"], nan=1e30, posinf=1e30)
         if phi_name in slack:
-            tol = tol + 32 * slack[phi_name]
+            tol = tol + 256 * slack[phi_name]
         usable = tol < 1e-2  # beyond that the direction is numerically undefined
         # acos(1 + 2e-16) = nan for a momentum exactly along +-z: rounding at a measure-zero
         # configuration (labelled); a nan anywhere else is a wrong value
@@ -242,7 +263,7 @@ def run_case(desc) -> Result:  # noqa: C901, PLR0912, PLR0914, PLR0915
         # (d) all registered topologies that define the name must agree
         for vec, meta, _topo in candidates[1:]:
             c2 = np.nan_to_num(meta["cond"], nan=1e30, posinf=1e30)
-            t2 = np.maximum(tol, 1e-9 * c2 + 3e-8 * np.sqrt(c2) + 64 * 2.2e-16 * np.nan_to_num(meta["cond2"], nan=1e30, posinf=1e30))
+            t2 = np.maximum(tol, 1e-9 * c2 + 3e-8 * np.sqrt(c2) + 1024 * 2.2e-16 * np.nan_to_num(meta["cond2"], nan=1e30, posinf=1e30))
             u2 = usable & (t2 < 1e-2)
             diff = np.linalg.norm(vec - base_vec, axis=1)
             if np.any(diff[u2] > t2[u2]):
@@ -257,6 +278,13 @@ def run_case(desc) -> Result:  # noqa: C901, PLR0912, PLR0914, PLR0915
                     return v
                 pending = pending or v  # known pattern (F4): keep searching behind it
         diff = np.linalg.norm(lib - base_vec, axis=1)
+        # an ancestor flying exactly along the z axis of its frame has no azimuth (atan2(+-0, +-0) is a convention),
+        # so the x axis of every frame below it is defined up to a rotation about z: only the polar angle is compared
+        azimuth_undefined = np.asarray(base_meta["ancestor_sin"]) < 1e-6
+        if np.any(azimuth_undefined):
+            diff = np.where(azimuth_undefined, np.abs(lib[:, 2] - base_vec[:, 2]), diff)
+            if "ancestor_on_z_axis:polar_angle_only" not in labels:
+                labels.append("ancestor_on_z_axis:polar_angle_only")
         if np.any(diff[usable] > tol[usable]):
             # is it explained by the sibling's direction (F4)?
             explained = False
